@@ -191,7 +191,10 @@ CHECKS = {
                              "and three phases of every flush of the harness stream buffer, thread start/exit",
                              "unsynchronised accesses between scheduling points are only caught by the separate free-running ThreadSanitizer pass, "
                              "which observes the schedules that happen to run (a detector, not the deciding exploration)",
-                             "2-3 threads, 1-2 records each; preemption bound as reported per configuration"],
+                             "2-4 threads, 1-2 records each; preemption bound as reported per configuration",
+                             "the unbounded exploration prunes by a digest of the whole program state; it is exhaustive provided a thread's local state "
+                             "is a function of its progress and of the values it observed (try-lock results, buffer positions and contents are folded "
+                             "into the digest), which holds for the deterministic thread bodies used"],
                 explanation="stateless preemption-bounded exploration (iterative context bounding, CHESS style) of real threads running the real "
                             "thread-safe sinks under a cooperative scheduler; every complete schedule is judged on the bytes that reached the "
                             "non-thread-safe stream buffer"),
